@@ -2,11 +2,13 @@
 # run every stored seeded change against the check of its own property; summary in seeded/RESULTS.md
 #   tools/seed_all.sh [--all]          only those without a recorded result (or all of them)
 #   SHARD=i/K tools/seed_all.sh --all  the i-th of K interleaved shards (no summary); finish with tools/seed_results.py
+#   ONLY="C02 C04" [W6=1] ...           restrict to the seeds of these properties (W6=1: plus every wave-6 seed)
 cd /verif
 I=0; K=1
 if [ -n "${SHARD:-}" ]; then I=${SHARD%/*}; K=${SHARD#*/}; fi
 n=0
 for d in seeded/*/; do name=$(basename $d); p=${name%%_*}; [ -f checks/$(echo $p | tr A-Z a-z).py ] || continue
+  if [ -n "${ONLY:-}" ]; then case " $ONLY " in *" $p "*) ;; *) case "$name" in *_w6_*) [ -n "${W6:-}" ] || continue ;; *) continue ;; esac ;; esac; fi
   n=$((n+1)); [ $((n % K)) -eq $I ] || continue
   if [ "${1:-}" != "--all" ] && grep -q "\"$p\": {" $d/meta.json 2>/dev/null; then continue; fi
   tools/seed_check.sh $name $p; done
